@@ -63,6 +63,15 @@ theorem pack_injective (t : Ty) (v v' : Val) (r r' : Bytes) (hv : wt t v = true)
     (h : pack t v ++ r = pack t v' ++ r') : v = v' ∧ r = r' :=
   pack_inj t v v' r r' hv hv' h
 
+/-- The code as it is packs `time_point` (milliseconds) as `time_t`: the time read back is the
+time packed iff it is a whole number of seconds.  (Finding F7: sub-second report steps.) -/
+theorem time_point_roundtrip_iff (ms : Nat) (rest : Bytes) (h : ms / 1000 < 256 ^ 8) :
+    unpackTime (packTime ms ++ rest) = .ok (ms, rest) ↔ ms % 1000 = 0 :=
+  time_roundtrip_iff ms rest h
+
+/-- witness of the failing instance: 1.5 s comes back as 1 s -/
+example : unpackTime (packTime 1500) = .ok (1000, []) := by decide +kernel
+
 /-! ## per-class completeness over the generated table -/
 
 /-- Data members that are deliberately not serialized, with the reason. -/
@@ -156,21 +165,33 @@ def requiredClasses : List String := [
   if !s.isEmpty then
     throw (IO.userError s!"C11 exceptions_tight: stale exception(s): {showPairs s}")
 
+/-- all four table obligations in one term, so that the kernel evaluates the table once -/
+def tableReport : List (String × String) × List (String × String) × List (String × String) × List (String × String) × List String :=
+  (uncovered (exceptions ++ knownUnserialized) classes, eqUncovered eqExceptions classes,
+   staleExceptions exceptions classes, staleEqExceptions eqExceptions classes, missing requiredClasses classes)
+
+theorem table_clean : tableReport = ([], [], [], [], []) := by decide +kernel
+
 /-- Every data member of every class reachable from the root classes is named in that
 class's `serializeOp`, or is on the exception lists above. -/
-theorem members_covered : uncovered (exceptions ++ knownUnserialized) classes = [] := by decide +kernel
+theorem members_covered : uncovered (exceptions ++ knownUnserialized) classes = [] :=
+  (Prod.mk.inj table_clean).1
 
 /-- Every serialized member is also compared by `operator==` (or is on `eqExceptions`), so a
 member forgotten in both places cannot hide behind `==`. -/
-theorem eq_covers_serialized : eqUncovered eqExceptions classes = [] := by decide +kernel
+theorem eq_covers_serialized : eqUncovered eqExceptions classes = [] :=
+  (Prod.mk.inj (Prod.mk.inj table_clean).2).1
 
 /-- The exception lists are tight: every entry names an existing member that really is not
 serialized / not compared (a stale entry would mask a later regression). -/
 theorem exceptions_tight :
-    staleExceptions exceptions classes = [] ∧ staleEqExceptions eqExceptions classes = [] := by decide +kernel
+    staleExceptions exceptions classes = [] ∧ staleEqExceptions eqExceptions classes = [] :=
+  ⟨(Prod.mk.inj (Prod.mk.inj (Prod.mk.inj table_clean).2).2).1,
+   (Prod.mk.inj (Prod.mk.inj (Prod.mk.inj (Prod.mk.inj table_clean).2).2).2).1⟩
 
 /-- All classes named by the property are covered by the table. -/
-theorem roots_present : missing requiredClasses classes = [] := by decide +kernel
+theorem roots_present : missing requiredClasses classes = [] :=
+  (Prod.mk.inj (Prod.mk.inj (Prod.mk.inj (Prod.mk.inj table_clean).2).2).2).2
 
 /-! ## non-vacuity -/
 
